@@ -27,9 +27,9 @@ import (
 type StoreW struct {
 	Mode    string `json:"mode"` // exact | free
 	Workers int    `json:"workers"`
-	Ops     int    `json:"ops"`  // per worker
-	Keys    int    `json:"keys"` // key space per view
-	Base    int    `json:"base"` // every Base-th key exists in the database before the run (0 = none)
+	Ops     int    `json:"ops"`     // per worker
+	Keys    int    `json:"keys"`    // key space per view
+	Base    int    `json:"base"`    // every Base-th key exists in the database before the run (0 = none)
 	Weights []int  `json:"weights"` // get, has, set, del, range, iterate, snapshot, restore
 	Yield   int    `json:"yield"`
 }
